@@ -141,6 +141,15 @@ func runChild(in *scen.RunInput, wallLimit time.Duration, gomaxprocs int) *child
 	}
 	res.wall = time.Since(start)
 	res.stderr = errb.String()
+	if res.timedOut {
+		// a quantum that never reaches quiescence: is some goroutine spinning inside body processing / extraction / normalisation?
+		if fr := spinningFrame(res.stderr); fr != "" {
+			res.crashed = true
+			res.timedOut = false
+			res.crashSig = "spin: goroutine still running after the wall-clock limit in " + fr
+			res.crashHead = res.crashSig
+		}
+	}
 	if b, err := os.ReadFile(in.Out); err == nil {
 		var rec scen.RunRecord
 		if json.Unmarshal(b, &rec) == nil {
@@ -170,6 +179,34 @@ func runChild(in *scen.RunInput, wallLimit time.Duration, gomaxprocs int) *child
 		}
 	}
 	return res
+}
+
+// spinningFrame looks, in a SIGQUIT goroutine dump, for a goroutine in state "running"/"runnable"
+// whose stack is inside Zeno's input-processing code (or the parsers it calls).
+func spinningFrame(dump string) string {
+	marks := []string{"internal/pkg/postprocessor", "internal/pkg/preprocessor", "internal/pkg/archiver.ProcessBody", "pdfcpu", "grafov/m3u8", "goquery", "golang.org/x/net/html", "encoding/xml", "encoding/json", "ada-url", "pkg/models", "mvdan.cc/xurls", "regexp."}
+	for _, blk := range strings.Split(dump, "\n\n") {
+		first := blk
+		if i := strings.IndexByte(blk, '\n'); i > 0 {
+			first = blk[:i]
+		}
+		if !strings.HasPrefix(first, "goroutine ") || !(strings.Contains(first, "[running") || strings.Contains(first, "[runnable")) {
+			continue
+		}
+		if strings.Contains(blk, "verifsim/sim.(*Kernel)") || strings.Contains(blk, "os/signal") || strings.Contains(blk, "runtime.sigdump") {
+			continue
+		}
+		for _, m := range marks {
+			if i := strings.Index(blk, m); i >= 0 {
+				line := blk[i:]
+				if j := strings.IndexByte(line, '\n'); j > 0 {
+					line = line[:j]
+				}
+				return line
+			}
+		}
+	}
+	return ""
 }
 
 func mix(a, b uint64) uint64 {
